@@ -34,11 +34,14 @@ func NewDefaultFormatter(m zconst.LangMap) p.IssueFmtFunc {
 			e.SetMessage(m[t][zconst.IssueCodeFallback])
 			return
 		}
+		// all placeholders of the template are replaced in one pass: text that comes from a parameter or from the value is never
+		// scanned for placeholders again (which made the result depend on the iteration order of the params)
+		pairs := make([]string, 0, 2*len(e.Params)+2)
 		for k, v := range e.Params {
-			msg = strings.ReplaceAll(msg, "{{"+k+"}}", fmt.Sprintf("%v", v))
+			pairs = append(pairs, "{{"+k+"}}", fmt.Sprintf("%v", v))
 		}
-		msg = strings.ReplaceAll(msg, valuePlaceholder, fmt.Sprintf("%v", e.Value))
-		e.SetMessage(msg)
+		pairs = append(pairs, valuePlaceholder, fmt.Sprintf("%v", e.Value))
+		e.SetMessage(strings.NewReplacer(pairs...).Replace(msg))
 	}
 
 }
